@@ -28,6 +28,26 @@ GROUPS = {
 }
 
 
+class _Groups(dict):
+    """`B:<elem>,<elem>,…` (a manif::Bundle) is synthesised from its elements' layouts."""
+
+    def __missing__(self, name):
+        if not name.startswith("B:"):
+            raise KeyError(name)
+        els = [self[e] for e in name[2:].split(",")]
+        g = dict(rep=[p for e in els for p in e["rep"]], tan=[p for e in els for p in e["tan"]],
+                 dim=sum(e["dim"] for e in els), dof=sum(e["dof"] for e in els),
+                 repsize=sum(e["repsize"] for e in els), tsize=sum(e["tsize"] for e in els),
+                 elems=name[2:].split(","))
+        self[name] = g
+        return g
+
+
+GROUPS = _Groups(GROUPS)
+BUNDLES = ["B:SO2", "B:R3", "B:SE3", "B:SO2,R3", "B:R3,SO2", "B:SE2,SO3,R2", "B:SO3,SE2,R5,SO3",
+           "B:SE_2_3,R1,SE2", "B:R1,SE3,SO2,SE_2_3,SE2", "B:SE3,SE3", "B:R2,SO3"]
+
+
 def hex_of(x):
     return "%016x" % struct.unpack("<Q", struct.pack("<d", float(x)))[0]
 
